@@ -73,6 +73,14 @@ def c16_view_reverse_detaches_moveless_subpath(case, od):
 
 
 @predicate
+def c20_non_scaling_stroke(case, od):
+    """A stroke-width difference on a shape that carries vector-effect="non-scaling-stroke" (the check tags the
+    signature from the source element's own values). Any other stroke-width difference is not matched."""
+    sig = od.get("sig") or []
+    return len(sig) >= 3 and sig[0] == "stroke-width" and sig[2] == "non-scaling-stroke"
+
+
+@predicate
 def c20_arc_radii_six_digits(case, od):
     sig = od.get("sig") or []
     return len(sig) >= 3 and sig[0] == "geometry" and sig[1] == "Path" and sig[2] == "Arc-shape-six-digit-radii"
